@@ -95,6 +95,17 @@ def cases(tier, seed):
         out.append({"cid": f"c02-{seed}-q{k}", "lib": rng2.choice(["ufoLib2", "defcon"]), "flavor": "tt",
                     "ufo": {"glyphs": glyphs, "info": {"unitsPerEm": 1000, "ascender": 800, "descender": -200},
                             "lib": {"com.github.googlei18n.cu2qu.curve_type": "quadratic"}}, "kwargs": kwargs})
+    # cubic curves with convertCubics=False and the default allQuadratic=True: a glyf table of format 0 cannot hold them, the
+    # compile refuses (ValueError) -- for glyphs with one contour as for glyphs with several
+    rng5 = random.Random(seed * 15485863 + 20005)
+    for k in range(8 if tier == "quick" else 80):
+        glyphs = gen.glyphset(rng5, nmin=2, nmax=4, max_depth=1, kinds=["line", "quad"], palette=PALETTE_TT, unicodes=True, mixed=False)
+        r0 = rng5.randint(30, 60)
+        glyphs["ring"] = {"cs": [ring(rng5.randint(0, 40), rng5.randint(0, 40), r0, 0)] + ([ring(300, 0, r0 // 2, 0)] if k % 2 else []),
+                          "comps": [], "anchors": [], "w": 400 * PS, "h": 0, "u": [0x4F]}
+        out.append({"cid": f"c02-{seed}-cq{k}", "lib": rng5.choice(["ufoLib2", "defcon"]), "flavor": "tt", "expectErr": "ValueError",
+                    "ufo": {"glyphs": glyphs, "info": {"unitsPerEm": 1000, "ascender": 800, "descender": -200}},
+                    "kwargs": {"convertCubics": False, "reverseDirection": k % 4 != 3}})
     # the variable TrueType font itself: what it draws at every master's location is that master's shape.  The family has a
     # composite made of the same base twice whose SECOND (or first) component is enlarged in one master only -- a 2x2 that
     # cannot vary in a variable font, so the glyph has to be stored as contours in every master
